@@ -46,8 +46,9 @@ def run(out: common.Outcome):
     rnd = random.Random(out.seed + 9)
     model = Model()
     corr = Corr(out, model, rnd)
-    out.coverage["source_pin"] = common.source_hash(system_common.PINS)
+    common.pins_changed(out, system_common.PINS)
     n = 300 if out.tier == "quick" else 10000
+    n = int(n * out.boost)
     mons = ["agreed_collection", "internal_error", "stuck"]
     system_common.run_sessions(out, corr, rnd, disagree_jobs(rnd, n), mons, "sessions(disagreeing collections)",
                                nontrivial=lambda r: bool(r["cfg"]["overrides"]))
